@@ -46,6 +46,10 @@ fn main() {
         c12dbg();
         return;
     }
+    if path == "c12dbg3" {
+        c12dbg3();
+        return;
+    }
     if path == "c12dbg2" {
         for i in 0..300 {
             if c12dbg2(i) {
@@ -274,4 +278,44 @@ fn c12dbg2(round: u32) -> bool {
         return true;
     }
     false
+}
+
+
+fn c12dbg3() {
+    use yrs::undo::Options as UOpts;
+    use yrs::{Doc, Map, Options, Transact, ReadTxn};
+    let mut o = Options::with_client_id(yrs::block::ClientID::new(1));
+    o.skip_gc = false;
+    let doc = Doc::with_options(o);
+    let map = doc.get_or_insert_map("map");
+    let mut uo = UOpts::<()>::default();
+    uo.capture_timeout_millis = 0;
+    let mut mgr = yrs::undo::UndoManager::with_options(uo);
+    mgr.expand_scope(&doc, &map);
+    let blocks = |what: &str| {
+        let txn = doc.transact();
+        let b: Vec<String> = yrs::verif_hooks::store_blocks(txn.store()).iter().map(|b| format!("{}#{}+{}{:?}{}", b.client.get(), b.clock, b.len, b.kind, if b.deleted { "d" } else { "" })).collect();
+        println!("{}: {:?}", what, b);
+    };
+    map.insert(&mut doc.transact_mut(), "k1", 1.0);
+    blocks("set");
+    mgr.reset();
+    println!("undo {}", mgr.undo_blocking());
+    blocks("after undo 1");
+    {
+        let mut txn = doc.transact_mut();
+        map.insert(&mut txn, "k1", 2.0);
+        map.clear(&mut txn);
+    }
+    blocks("set+clear");
+    mgr.reset();
+    println!("undo {}", mgr.undo_blocking());
+    blocks("after undo 2");
+    doc.transact_mut().gc(None);
+    blocks("after gc");
+    let txn = doc.transact();
+    println!("len {}", map.len(&txn));
+    for (k, v) in map.iter(&txn) {
+        println!("{} = {}", k, v);
+    }
 }
